@@ -633,7 +633,9 @@ def main(tier, replay=None):
             key = "particles" if bt == "particle" else "mu"
             if float((res["out"][key] - res["inc"][key]).abs().max()) > 1e-12:
                 new.append({"kind": "oracle", "spec": spec, "beam": beam, "what": "zero-length zero-strength element is not the identity"})
-        if meth == "cheetah" and cls in LINEAR and len(corr_cases) < (120 if thorough else 40) and (lk != "zero" or run.rng.random() < 0.5):
+        # per-class cap, so that every class (the Undulator is last in LINEAR) reaches the correspondence in the quick tier too
+        if (meth == "cheetah" and cls in LINEAR and sum(1 for c in corr_cases if c[0]["cls"] == cls) < (15 if thorough else 5)
+                and (lk != "zero" or run.rng.random() < 0.5)):
             corr_cases.append((spec, energy, beam))
     run.sample({"spec": plan and spec, "beam": beam})
 
